@@ -27,6 +27,8 @@ def rule_unbuffered(ctx, rep, rid='R1'):
             rep.anchor_lost(rid, 'impl MetricSink for %s' % name)
             continue
         rep.analysed(b)
+        upd_path = [x.path for x in cad.method(SS, 'update')]
+        b = inl(cad, b, never=lambda x: x.path in upd_path)
         T = Terms(b)
         sends = [bi for bi, t in b.calls() if callee_is(t, *SOCK_SEND) and not b.blocks[bi]['cleanup']]
         rep.sites(len(sends))
@@ -65,7 +67,7 @@ def rule_unbuffered(ctx, rep, rid='R1'):
                             any(y[0] == 'call' and y[1].endswith('ToSocketAddrs>::to_socket_addrs') and peel(y[2][0]) == ('param', 1) for y in walk(d)) and \
                             not any(y[0] == 'call' and any(k in y[1] for k in ('::last', '::nth', '::skip', '::rev', '::max', '::min')) for y in walk(d))
                     else:
-                        okc = term_callee_is(d, 'std::path::Path::to_path_buf') and peel(d[2][0]) == ('param', 1)
+                        okc = _converted_from(d, ('param', 1))
                     msg = fmt(d)[:120]
                     oks = dict(agg[3]).get(sock_field) == ('param', 2)
                     okc = okc and oks
@@ -114,13 +116,25 @@ def rule_pairing(ctx, rep, rid='R1'):
     if len(upd) != 1:
         rep.anchor_lost(rid, 'SocketStats::update')
         return
-    for b in cad.all_bodies:
-        if b.file.endswith('test.rs'):
+    # bodies that send, directly or through private helpers; helpers that are only called by such bodies are judged
+    # inside their callers (inlined), where `stats`/`socket` are the caller's own fields
+    direct = [x for x in cad.all_bodies if not x.file.endswith('test.rs') and
+              any(callee_is(t, *SOCK_SEND) and not x.blocks[bi]['cleanup'] for bi, t in x.calls())]
+    helper_paths = set()
+    for x in direct:
+        if x.j.get('reachable') or x.impl_trait is not None or x.def_kind == 'Closure':
             continue
+        callers = [y for y in cad.all_bodies for _, t in y.calls() if t.get('resolved') == x.path]
+        if callers:
+            helper_paths.add(x.path)
+    entries = [x for x in cad.all_bodies if not x.file.endswith('test.rs') and x.path not in helper_paths and
+               (x in direct or any(t.get('resolved') in helper_paths for _, t in x.calls()))]
+    for b0 in entries:
+        b = inl(cad, b0, never=lambda x: x.path == upd[0].path)
         sends = [bi for bi, t in b.calls() if callee_is(t, *SOCK_SEND) and not b.blocks[bi]['cleanup']]
         if not sends:
             continue
-        rep.analysed(b)
+        rep.analysed(b0)
         T = Terms(b)
         ups = [bi for bi, t in b.calls() if t.get('resolved') == upd[0].path and not b.blocks[bi]['cleanup']]
         for sbi in sends:
@@ -201,7 +215,7 @@ def rule_classification(ctx, rep, rid='R2'):
             continue
         if callee_is(t, 'core::sync::atomic::Atomic::fetch_add', 'core::sync::atomic::Atomic::store', 'core::sync::atomic::Atomic::swap', 'core::sync::atomic::Atomic::fetch_sub'):
             ct = norm(T.call_term(bi))
-            fa[bi] = (ct[1].rsplit('::', 1)[-1], self_field_name(ct[2][0]), ct[2][1])
+            fa[bi] = (ct[1].rsplit('::', 1)[-1], leaf_field_name(ct[2][0]), ct[2][1])
     n_ok = field_of(('payload', ('param', 2), 'Ok'), '0', 0)
 
     def check_side(starts, want, side):
@@ -249,7 +263,7 @@ def rule_classification(ctx, rep, rid='R2'):
             continue
         Tm = Terms(ms[0])
         calls = [norm(Tm.call_term(bi)) for bi, t in ms[0].calls() if 'core::sync::atomic::Atomic::' in strip_generics(t.get('callee_full', ''))]
-        ok = len(calls) == 1 and calls[0][1].endswith('::fetch_add') and self_field_name(calls[0][2][0]) == fld
+        ok = len(calls) == 1 and calls[0][1].endswith('::fetch_add') and leaf_field_name(calls[0][2][0]) == fld
         rep.ob(rid, 'incr_%s/single-rmw-on-own-field' % fld, ok, ms[0].where(), 'one fetch_add on %s' % fld if ok else 'incr_%s does %s' % (fld, [fmt(c)[:80] for c in calls]))
 
 
@@ -263,13 +277,13 @@ def rule_shared_counters(ctx, rep, rid='R3'):
         rts = ret_terms(Terms(inl(cad, b)), [0])
         ok = False
         if len(rts) == 1 and list(rts)[0][0] == 'adt':
-            ok = all(term_callee_is(v, 'core::sync::atomic::Atomic::load') and self_field_name(v[2][0]) == n for n, v in list(rts)[0][3]) and len(list(rts)[0][3]) == 4
+            ok = all(term_callee_is(v, 'core::sync::atomic::Atomic::load') and leaf_field_name(v[2][0]) == n for n, v in list(rts)[0][3]) and len(list(rts)[0][3]) == 4
         rep.ob(rid, 'snapshot-maps-field-to-same-field', ok, b.where(), 'SinkStats.X = SocketStats.X.load() for the four counters')
     # SocketStats Clone is derived over Arc fields (clones share)
     cl = [i for i in cad.impls_of('core::clone::Clone') if i.get('self_adt') == SS]
     fields = adt_fields(cad, SS) or []
-    okc = len(cl) == 1 and cl[0]['derived'] and all(f['ty'].startswith('alloc::sync::Arc<core::sync::atomic::Atomic<u64>>') for f in fields) and len(fields) == 4
-    rep.ob(rid, 'clones-share-counters', okc, '', 'SocketStats = 4 x Arc<AtomicU64>, derived Clone: a clone counts into the same cells')
+    okc = len(cl) == 1 and cl[0]['derived'] and all(f['ty'].startswith('alloc::sync::Arc<') for f in fields) and len(fields) >= 1
+    rep.ob(rid, 'clones-share-counters', okc, '', 'every field of SocketStats is an Arc and Clone is derived: a clone counts into the same cells')
     # buffered constructors: adapter gets stats.clone() of the value kept in the sink
     n = 0
     for adt, field, adapter in buffered_sinks(cad):
@@ -311,3 +325,20 @@ def rule_shared_counters(ctx, rep, rid='R3'):
         k += 1
         rep.ob(rid, '%s/stats-is-snapshot-of-own-counters' % name, ok, sb.where(), 'stats() = (&self.stats).into()')
     rep.floor(rid, 'socket sinks with stats()', k, 4)
+
+
+CONVERT_FNS = ('to_path_buf', 'into', 'from', 'as_ref', 'to_owned', 'into_boxed_path', 'to_string', 'into_boxed_str', 'as_path', 'borrow', 'clone')
+
+
+def _converted_from(t, root):
+    """t is `root` passed through representation conversions only (to_path_buf, into, Box::from, as_ref ...)"""
+    t = norm(t)
+    for _ in range(8):
+        t = peel(t)
+        if t == root:
+            return True
+        if t[0] == 'call' and isinstance(t[1], str) and len(t[2]) == 1 and strip_generics(t[1]).rstrip('>').rsplit('::', 1)[-1] in CONVERT_FNS:
+            t = t[2][0]
+            continue
+        return False
+    return False
